@@ -1020,3 +1020,209 @@ func ruleDatetimeTokenWS(c *Ctx, rule string) {
 	c.Check(ok, rule, name, p.Pos(fn.Pos()), fmt.Sprintf("for %d token texts covering every white-space character of the grammar before and after the timestamp, time.Parse receives exactly the timestamp", len(texts)), why)
 	c.Floor(rule, 1)
 }
+
+// ruleBoundedResultTree: the sorting scanners keep at most skip+limit rows in a tree.  One iteration of the scan
+// loop that accepts a row is evaluated for every small (rows accepted so far, bound) pair with the tree modelled
+// by its size alone (Insert +1, DeleteMax -1 unless empty, Len, Max nil iff empty): afterwards the tree holds
+// min(accepted+1, bound) rows — in particular nothing when the bound is 0 — whichever way the loop is written
+// (insert then trim, or trim first when full).  Where a comparison with the current maximum decides, both
+// outcomes are tried.  Best effort: when the loop cannot be evaluated the rule says so in a note and does not
+// alarm.
+func ruleBoundedResultTree(c *Ctx, rule string, pkgs ...string) {
+	p := c.P
+	isTreeOp := func(ci ssa.CallInstruction) string {
+		cal, _ := calleeOf(ci.Common())
+		if cal == nil || cal.Pkg() == nil || !strings.HasSuffix(cal.Pkg().Path(), "/llrb") {
+			return ""
+		}
+		return cal.Name()
+	}
+	for _, fn := range c.prodFuncs(pkgs...) {
+		if fn.Parent() != nil {
+			continue
+		}
+		var loop *Loop
+		loops := loopsOf(fn)
+		for _, call := range callsIn(fn) {
+			if isTreeOp(call) == "Insert" {
+				if l := innermostLoop(loops, call.Block()); l != nil {
+					loop = l
+				}
+			}
+		}
+		if loop == nil {
+			continue
+		}
+		hasEval := false
+		for b := range loop.Blocks {
+			for _, in := range b.Instrs {
+				if invokeNamed(in, "EvalBool") {
+					hasEval = true
+				}
+			}
+		}
+		if !hasEval {
+			continue
+		}
+		name := FnName(fn)
+		c.Analysed(name)
+		// the counter of accepted rows: a field that the loop increments by one
+		var countFld *types.Var
+		for b := range loop.Blocks {
+			for _, in := range b.Instrs {
+				st, ok := in.(*ssa.Store)
+				if !ok {
+					continue
+				}
+				f, _ := fieldOfAddr(st.Addr)
+				if f == nil {
+					continue
+				}
+				if bo, isB := st.Val.(*ssa.BinOp); isB && bo.Op == token.ADD {
+					if lf, _ := loadedField(bo.X); sameVar(lf, f) {
+						countFld = f
+					}
+				}
+			}
+		}
+		inLoop := func(v ssa.Value) bool {
+			in, ok := v.(ssa.Instruction)
+			return ok && in.Block() != nil && loop.Blocks[in.Block()]
+		}
+		isInt64 := func(t types.Type) bool {
+			b, ok := t.Underlying().(*types.Basic)
+			return ok && (b.Kind() == types.Int64 || b.Kind() == types.Int)
+		}
+		ok, why, undecided := true, "", ""
+		rows := 0
+		for m := int64(0); m <= 2 && ok; m++ {
+			for k := int64(0); k <= 3 && ok; k++ {
+				for _, cmp := range []int64{1, -1} {
+					size := k
+					if size > m {
+						size = m
+					}
+					start := size
+					usedCmp := false
+					oracle := func(v ssa.Value) (AV, bool) {
+						// the scanner itself: a named object, so that what the iteration stores into its fields
+						// (the counter) is read back
+						if len(fn.Params) > 0 && paramCopy(v, fn.Params[0]) {
+							return AV{Kind: "nonnil", Sym: "alloc:scanner"}, true
+						}
+						switch x := v.(type) {
+						case *ssa.Call:
+							if x.Call.IsInvoke() {
+								switch x.Call.Method.Name() {
+								case "IsValid", "EvalBool":
+									return avBool(true), true
+								case "IsChildStore", "IsExtended":
+									return avBool(false), true
+								case "IsEntityPresent":
+									return avBool(true), true
+								case "Compare":
+									usedCmp = true
+									return avInt(cmp), true
+								}
+							}
+							switch isTreeOp(x) {
+							case "Len":
+								return avInt(size), true
+							case "Max", "Min":
+								if size == 0 {
+									return AV{Kind: "nil"}, true
+								}
+								return AV{Kind: "nonnil", Sym: "edge"}, true
+							}
+							if cal, _ := calleeOf(x.Common()); cal != nil && cal.Name() == "Compare" {
+								usedCmp = true
+								return avInt(cmp), true
+							}
+						case *ssa.UnOp:
+							if x.Op == token.MUL {
+								if f, _ := loadedField(x); f != nil {
+									if countFld != nil && sameVar(f, countFld) {
+										return avInt(k), true
+									}
+									if isInt64(f.Type()) {
+										return avInt(m), true // the bound, kept in a field
+									}
+									if b, isB := f.Type().Underlying().(*types.Basic); isB && b.Kind() == types.Bool {
+										return avBool(false), true
+									}
+								}
+							}
+						}
+						// values the loop carries unchanged (header phis): the bound, flags, other state
+						if phi, isPhi := v.(*ssa.Phi); isPhi && phi.Block() == loop.Header {
+							switch {
+							case isInt64(phi.Type()):
+								return avInt(m), true
+							default:
+								if b, isB := phi.Type().Underlying().(*types.Basic); isB && b.Kind() == types.Bool {
+									return avBool(false), true
+								}
+								return AV{Kind: "sym", Sym: "carried:" + phi.Name()}, true
+							}
+						}
+						// the bound computed before the loop
+						if !inLoop(v) && isInt64(v.Type()) {
+							if _, isConst := v.(*ssa.Const); !isConst {
+								return avInt(m), true
+							}
+						}
+						if !inLoop(v) {
+							if b, isB := v.Type().Underlying().(*types.Basic); isB && b.Kind() == types.Bool {
+								if _, isConst := v.(*ssa.Const); !isConst {
+									return avBool(false), true // "is a child store", computed before the loop
+								}
+							}
+						}
+						return AV{}, false
+					}
+					_, _, exited, err := DecideIteration(fn, loop, oracle, func(ci ssa.CallInstruction) bool {
+						switch isTreeOp(ci) {
+						case "Insert", "InsertNoReplace", "ReplaceOrInsert":
+							size++
+						case "DeleteMax", "DeleteMin":
+							if size > 0 {
+								size--
+							}
+						}
+						return false
+					})
+					if err != "" || exited {
+						if err == "" {
+							err = "the loop was left"
+						}
+						undecided = fmt.Sprintf("accepted=%d bound=%d: %s", k, m, err)
+						break
+					}
+					rows++
+					want := k + 1
+					if want > m {
+						want = m
+					}
+					if size != want {
+						ok = false
+						why = fmt.Sprintf("with %d row(s) accepted so far and a bound of %d (skip+limit) the tree holds %d row(s) before and %d after accepting one more; it must hold %d: the page returned has a row too many or too few (a bound of 0 — limit 0 — must return nothing)", k, m, start, size, want)
+					}
+					if !usedCmp {
+						break
+					}
+				}
+				if undecided != "" {
+					break
+				}
+			}
+			if undecided != "" {
+				break
+			}
+		}
+		if undecided != "" && ok {
+			c.Note(rule + ": " + name + " not evaluated (" + undecided + ")")
+			continue
+		}
+		c.Check(ok, rule, name, p.Pos(fn.Pos()), fmt.Sprintf("after accepting a row the result tree holds min(accepted, skip+limit) rows (%d cases)", rows), why)
+	}
+}
